@@ -84,7 +84,7 @@ def r1(ctx):
             detail["discharged_by"] = d[0] + ": " + d[1][:160]
             ctx.ok(rule, s.key, detail)
             continue
-        ent = TT.table_entry(table, s)
+        ent = TT.table_entry(table, s, T)
         if ent is not None:
             reason = ent if isinstance(ent, str) else ent["reason"]
             missing = [] if isinstance(ent, str) else [r for r in ent.get("requires", []) if not has_call(P, s.body, r)]
